@@ -153,6 +153,15 @@ def multi_file_cases(ctx):
     out.append(("whole-file-composite-subdir", {"s.json": {"$id": "http://x/main", "type": "object", "properties": {"owners": {"type": "array", "items": {"$ref": "people/person.json"}, "minItems": 1}}},
                                                 "people/person.json": person}, "s.json", []))
     out.append(("parent-dir", {"s.json": top, "sub/mid.json": mid, "leaf.json": leaf}, "s.json", []))
+    # a file that refers to a file of the SAME base name in another directory (and to itself by name): same definition names, different content
+    api = {"description": "api types", "$defs": {"Id": {"type": "string", "minLength": 3},
+                                               "Account": {"type": "object", "properties": {"account": {"$ref": "../common/types.json#/$defs/Id"}, "label": {"$ref": "#/$defs/Id"},
+                                                                                             "again": {"$ref": "types.json#/$defs/Id"}}, "required": ["account"]}}}
+    common = {"description": "common types", "$defs": {"Id": {"type": "integer", "minimum": 1}}}
+    out.append(("same-base-name-other-directory", {"s.json": {"$id": "http://x/main", "type": "object", "properties": {"a": {"$ref": "api/types.json#/$defs/Account"}}, "required": ["a"]},
+                                                   "api/types.json": api, "common/types.json": common,
+                                                   "__docs__": [{"a": {"account": 5, "label": "abc", "again": "xyz"}}, {"a": {"account": "abc"}}, {"a": {"account": 5, "label": 7}}]}, "s.json", []))
+    # (a whole-file reference from v2/schema.json to ../v1/schema.json asks for the root type name of a declaration in progress: recorded finding C14-dup-type-name-in-progress)
     # same-named definitions in two files that differ only in annotations (defaults, titles, descriptions): each reference keeps its own definition's defaults
     def ep(port, tls, title):
         return {"type": "object", "title": title, "properties": {"host": {"type": "string"}, "port": {"type": "integer", "default": port, "description": "port %d" % port},
